@@ -100,3 +100,64 @@ def replay_case_file(path, pid):
         return 1
     print("replay: case passes")
     return 0
+
+
+def model_replay_validate(chk, module, cfg, name, pids, flavour="asan-ubsan", workers=16, xmx="16g", trace_module="TraceAlgo"):
+    """Design-level TLC run of an implementation-shaped model (its invariants must hold), every emitted state replayed into the
+    real object by harness/replay, the observed results validated by TLC (contract failures -> violations, impl notes counted)."""
+    import shutil
+    exe = vlib.build_exe(flavour, "replay")
+    d = vlib.scratch(chk.pid + "-" + cfg)
+    out = os.path.join(d, "cases.out")
+    res = vlib.tlc_ok(vlib.tlc(module, cfg=cfg, workers=workers, stdout_path=out, timeout=3000, xmx=xmx), name)
+    if res["violated"]:
+        raise vlib.FrameworkError("the model %s/%s violates its own invariants: %s" % (module, cfg, res["violated"]))
+    chk.add_tlc(res, "tlc " + name)
+    ev_path = os.path.join(d, "observed.ndjson")
+    rc, so, se = vlib.run_exe(exe, stdin_path=out, stdout_path=ev_path, timeout=3000)
+    if rc != 0:
+        chk.violation("replayer died while executing %s on the real object (rc=%s): %s" % (name, rc, (se or "")[-500:]),
+                      {"kind": "cases", "module": module, "cfg": cfg}, "replay-crash")
+        shutil.rmtree(d, ignore_errors=True)
+        return
+    lines = [l for l in open(ev_path) if '"summary"' not in l]
+    if not lines:
+        raise vlib.FrameworkError("no observed event for " + name)
+    # validate in parallel shards
+    shards = min(vlib.NCPU, max(1, len(lines) // 5000))
+    per = (len(lines) + shards - 1) // shards
+    paths = []
+    for s in range(shards):
+        part = lines[s * per:(s + 1) * per]
+        if part:
+            p = os.path.join(d, "obs%02d.ndjson" % s)
+            open(p, "w").writelines(part)
+            paths.append(p)
+    import concurrent.futures
+    with concurrent.futures.ThreadPoolExecutor(len(paths)) as ex:
+        vals = list(ex.map(lambda p: tracecheck._validate(p, trace_module, None), paths))
+    notes = {}
+    nfail = 0
+    for p, (r2, reports) in zip(paths, vals):
+        chk.cov["states"] += r2["distinct"]
+        chk.cov["transitions"] += r2["distinct"]
+        evs = [json.loads(l) for l in open(p)]
+        for rep in reports:
+            for f in rep["fails"]:
+                if f["p"] == "note":
+                    notes[f["sig"]] = notes.get(f["sig"], 0) + 1
+                elif f["p"] in pids:
+                    nfail += 1
+                    ev = evs[rep["line"] - 1]
+                    chk.violation("%s: %s" % (f["p"], json.dumps(f["why"])[:400]), {"kind": "trace-events", "module": trace_module, "events": [ev]}, f["sig"])
+    n = len(lines)
+    chk.count(n)
+    chk.cov["_dn_extra"] = chk.cov.get("_dn_extra", 0) + n
+    chk.cov["traces_validated_against_impl"] += n
+    same = notes.get("impl-same", 0)
+    chk.cov.setdefault("impl_conformance", {})[cfg] = {"moves": n, "same_as_transcription": same, "guard_diff": notes.get("impl-guard-diff", 0),
+                                                         "result_diff": notes.get("impl-diff", 0)}
+    chk.step("replay + validation " + name, observed_moves=n, contract_failures=nfail, impl_same=same)
+    if lines:
+        chk.sample({"observed_move": json.loads(lines[len(lines) // 2])}, limit=8)
+    shutil.rmtree(d, ignore_errors=True)
